@@ -281,6 +281,9 @@ func c17Mid(r *vk.Run, rng *rand.Rand, index int, base string) {
 			if fi, err := os.Lstat(fullPath(e.root, A)); err == nil && fi.Mode()&os.ModeSymlink != 0 {
 				isLink = true
 			}
+			if isLink {
+				e.r.Count("operations_with_swap_inside", 1)
+			}
 			if !isLink {
 				return true, map[string]any{"note": "the directory did not become a link inside the call", "problems": describeProblems(problems)}
 			}
@@ -310,7 +313,7 @@ func c17Mid(r *vk.Run, rng *rand.Rand, index int, base string) {
 			return len(bad) == 0, map[string]any{"plan": kinds, "problems": describeProblems(problems), "complaints": bad}
 		})
 	}
-	if swapped || layout == "mid-transition-plan-replaces-parent" {
+	if swapped && (layout == "mid-transmit" || layout == "mid-receive") {
 		r.Count("operations_with_swap_inside", 1)
 	}
 }
